@@ -544,8 +544,9 @@ pub fn check_hist(r: &mut Recorder, c: &Value) {
         if !bad.is_empty() {
             // maximize / minimize: the properties also allow the answer of an implementation that uses the optional
             // UTS #35 fallbacks.  It leaves the path this history was computed along: stop comparing, keep the value checks.
-            if let Some(alt) = st.get("alt") {
-                if !alt.is_null() && res == alt["res"] && after == alt["st"] && b(&ser) == alt["ser"] && !bad.contains(&"language-is_empty") {
+            let alts: Vec<Value> = st.get("alt").and_then(|a| a.as_array().cloned()).unwrap_or_default();
+            for alt in alts.iter() {
+                if res == alt["res"] && after == alt["st"] && b(&ser) == alt["ser"] && !bad.contains(&"language-is_empty") {
                     r.stat("hist_allowed_alternative");
                     let desc = format!("history of {} ops from '{}' (allowed alternative taken)", trail.len(), show(&start));
                     check_loc_value(r, desc.as_bytes(), &loc, "hist");
